@@ -299,3 +299,63 @@ func (v *vdrRun) unwatchRelocated() {
 }
 
 var _ = fmt.Sprint
+
+// guardChecks: the model's guard (refusedBy over the links found on the chain of
+// directories the code lstats) against the verdict of the real
+// Fork.vdrAcrossSymlink, for the forks of a run (all of them after a relocation).
+func (v *vdrRun) guardChecks() {
+	if v.r == nil || v.r.ps == nil {
+		return
+	}
+	n := 0
+	for _, g := range v.r.ps.VerifVdrGuards() {
+		if v.reloc == nil && n >= 4 {
+			break
+		}
+		var ents []string
+		seen := map[string]bool{}
+		for _, p := range g.Chain {
+			if seen[p] {
+				continue
+			}
+			seen[p] = true
+			st, err := os.Lstat(p)
+			if err != nil {
+				continue
+			}
+			link := "~"
+			if st.Mode()&os.ModeSymlink != 0 {
+				if t, err := os.Readlink(p); err == nil && t != "" {
+					link = hx(t)
+				}
+			}
+			ents = append(ents, hx(p)+":"+link)
+		}
+		fs := "."
+		if len(ents) > 0 {
+			fs = strings.Join(ents, ";")
+		}
+		chain := make([]string, 0, len(seen))
+		for p := range seen {
+			chain = append(chain, hx(p))
+		}
+		sort.Strings(chain)
+		cl := "."
+		if len(chain) > 0 {
+			cl = strings.Join(chain, ",")
+		}
+		v.res.Checks = append(v.res.Checks, VdrModelCheck{Name: "guard", Req: []string{"C04.refused", fs, cl},
+			Expect: fmt.Sprint(g.Refused),
+			What:   "the symlink guard of fork " + g.Fqname + " (Fork.vdrAcrossSymlink) against the model's refusedBy over the directories it lstats"})
+		n++
+		if g.Refused {
+			v.hist("guard-refuses-fork")
+		} else {
+			v.hist("guard-admits-fork")
+		}
+		if g.Refused != v.underReloc(v.rel(g.Path)) {
+			v.violate("C14", "correspondence", "C14:model:guard-scope",
+				fmt.Sprintf("fork %s: the guard says refused=%v but the harness judges the fork as %v (relocated: %v)", g.Fqname, g.Refused, v.underReloc(v.rel(g.Path)), v.reloc != nil), nil)
+		}
+	}
+}
